@@ -1246,13 +1246,39 @@ def mutation_sites_of(s, m):
 
 
 class _Normalise(ast.NodeTransformer):
-    def __init__(self, local_names):
+    def __init__(self, local_names, consts=None):
         self.local_names = local_names
+        self.consts = consts or {}
 
     def visit_Name(self, node):
         if node.id in self.local_names:
             return ast.copy_location(ast.Name(id='X', ctx=node.ctx), node)
+        if node.id in self.consts and isinstance(node.ctx, ast.Load):
+            return copy.deepcopy(self.consts[node.id])
         return node
+
+
+def constant_aliases(m):
+    """module-level `NAME = a.b.c` / `NAME = <literal>` bound exactly once and never re-bound in a function:
+    a private name for a constant expression; uses are read as the expression itself"""
+    seen = {}
+    for n, v, _ in bindings(m.tree.body):
+        seen.setdefault(n, []).append(v)
+    rebound = set()
+    for sc in m.scopes:
+        if sc['kind'] == 'function':
+            rebound |= {name for _, name in global_stores_of(sc)}
+    out = {}
+    for n, vs in seen.items():
+        if len(vs) == 1 and n not in rebound and isinstance(vs[0], (ast.Attribute, ast.Constant)):
+            node = vs[0]
+            ok = True
+            while isinstance(node, ast.Attribute):
+                node = node.value
+            ok = isinstance(node, (ast.Name, ast.Constant))
+            if ok:
+                out[n] = vs[0]
+    return out
 
 
 def time_calls_of(s, m):
@@ -1269,7 +1295,7 @@ def time_calls_of(s, m):
         if not hit and isinstance(n.func, ast.Attribute) and n.func.attr in TIME_METHODS:
             hit = True
         if hit:
-            shape = usrc(_Normalise(locs).visit(copy.deepcopy(n)))
+            shape = usrc(_Normalise(locs, constant_aliases(m)).visit(copy.deepcopy(n)))
             out.append({'fn': fn_label(s), 'shape': clip(shape, 300)})
     return out
 
